@@ -78,4 +78,4 @@ def realign_worker_killed_in_delivery(v):
     d = w.get("diag") or {}
     return (v["kind"] == "hang_proven_deadlock" and d.get("proven_deadlock") is True
             and d.get("mechanism") == "partial_message_in_pipe"
-            and w.get("fault_kind") in ("SIGKILL", "SIGSEGV", "exit3"))
+            and w.get("fault_kind") in ("SIGKILL", "SIGSEGV", "SIGTERM", "exit3"))
